@@ -134,27 +134,7 @@ def run(prog, chk):
     chk.count('statement-executing loops', nloops, 6)
     # ---- R07.3 block/for/call scopes are closed on every normal path (a `return` that jumps past endScope leaves the callee's
     # scope on the stack: the caller then reads the dead callee's same-named variables) ----------------------------------
-    chk.rule('R07.3', 'every scope opened while executing a statement or a call is closed on every normal path of the same function')
-    nb = 0
-    for f in [x for x in R.ev_methods() if x.body]:
-        if not any(n['k'] == 'mcall' and SX.short(n['callee']) == 'beginScope' for n in SX.walk(f.body, into_lambdas=False)):
-            continue
-        g = prog.cfg(f)
-        begins = [c for c in g.calls(lambda e: e['k'] == 'mcall' and e['callee'] == R.ev['name'] + '::beginScope')]
-        ends = [c for c in g.calls(lambda e: e['k'] == 'mcall' and e['callee'] == R.ev['name'] + '::endScope')]
-        for i, b in enumerate(begins):
-            nb += 1
-            chk.ob('R07.3', f, b.ln, bool(ends) and g.must_follow(b, ends), 'the scope opened in %s is closed on every normal path (including a `return` taken inside a loop body)' % f.short,
-                   key='scope:%s#%d' % (f.short, i))
-        for i, e_ in enumerate(ends):
-            chk.ob('R07.3', f, e_.ln, bool(begins) and g.must_precede(begins, e_), 'the scope closed in %s was opened in the same function on every path (otherwise the caller\'s scope is popped)' % f.short,
-                   key='scope-end:%s#%d' % (f.short, i), nontrivial=False)
-    for f in [x for x in R.ev_methods() if x.body]:
-        # closes without any opening in the function
-        if any(n['k'] == 'mcall' and SX.short(n['callee']) == 'endScope' for n in SX.walk(f.body, into_lambdas=False)) and \
-                not any(n['k'] == 'mcall' and SX.short(n['callee']) == 'beginScope' for n in SX.walk(f.body, into_lambdas=False)) and f.short not in ('endScope',):
-            chk.ob('R07.3', f, f.ln, False, '%s closes a scope it never opened' % f.short, key='scope-end-only:' + f.short)
-    chk.count('scope openings', nb, 5)
+    scope_pairing(prog, chk, R, 'R07.3')
     chk.count('activation functions', nact, 4)
 
     value_array_subscripts(prog, chk, R, 'R07.4')
@@ -200,11 +180,201 @@ def run(prog, chk):
     ev = ev_top
 
     # ---- R07.6 numeric routing of the binary-operator cascade ----------------------------------------
+    chk.rule('R07.13', 'constants folded by the analyser have the value the evaluator computes (`/` is a float division)')
+    _const_folder_division(prog, chk)
+    chk.rule('R07.12', 'each sub-expression is evaluated at most once per evaluation of its parent')
+    _evaluated_once(prog, chk, R)
     _tag_table(prog, chk, ev)
     _cast_table(prog, chk, ev)
     _unary_table(prog, chk, ev)
     _routing(prog, chk, ev)
 
+
+
+
+def _evaluated_once(prog, chk, R):
+    """R07.12 — evaluating an expression evaluates each of its sub-expressions at most once: on no path through a handler is the same child
+    link handed to eval/exec by two different calls — the same member link twice, the same constant element twice, or a constant element
+    `C[k]` and a loop over all of C (the untyped array literal used to evaluate its first element once to find the array kind and again
+    in the element loop: `sum({next(), 2})` called next() twice, `f({measure a, measure b})` measured a twice).  Re-evaluation by the
+    *same* call (a loop condition, an update clause) is iteration, not duplication."""
+    from ..kdiv import int_const
+    names = (R.ev_method('eval').name, R.ev_method('exec').name)
+
+    def unget(e):
+        e = SX.strip(e)
+        while SX.is_node(e) and e.get('k') == 'mcall' and SX.short(e.get('callee', '')) == 'get' and not SX.real_args(e):
+            e = SX.strip(e.get('obj'))
+        return e
+
+    def classify(x, loops):
+        x = unget(x)
+        if not SX.is_node(x):
+            return None
+        if x.get('k') == 'ref' and x.get('id') in loops:
+            return ('loop', loops[x['id']], None)
+        if x.get('k') == 'index':
+            k = int_const(x.get('i'))
+            return ('elem', SX.show(unget(x['base'])), k if k is not None else SX.show(x['i']))
+        if x.get('k') == 'member':
+            return ('child', SX.show(x), None)
+        return None
+
+    def skips_first(lam, prm, call_node_e):
+        """the closure evaluates its parameter only when it is not the first element of container C: `&p == &C.front() ? first : eval(p.get())`
+        → text of C, else None"""
+        for c in SX.walk(lam.body, into_lambdas=False):
+            if c.get('k') not in ('cond', 'if'):
+                continue
+            cp = SX.cmp_parts(c.get('c'))
+            if not cp or cp[0] not in ('==', '!='):
+                continue
+            sides = [SX.strip(cp[1]), SX.strip(cp[2])]
+            if not all(SX.is_node(s_) and s_.get('k') == 'un' and s_.get('op') == '&' for s_ in sides):
+                continue
+            inner = [SX.strip(s_['e']) for s_ in sides]
+            pr = [i_ for i_ in inner if i_.get('k') == 'ref' and i_.get('id') == prm['id']]
+            fr = [i_ for i_ in inner if (i_.get('k') == 'mcall' and SX.short(i_.get('callee', '')) == 'front') or (i_.get('k') == 'index' and int_const(i_.get('i')) == 0)]
+            if len(pr) != 1 or len(fr) != 1:
+                continue
+            branch = (c.get('f') if cp[0] == '==' else c.get('t')) if c.get('k') == 'cond' else (c.get('e') if cp[0] == '==' else c.get('t'))
+            other = (c.get('t') if cp[0] == '==' else c.get('f')) if c.get('k') == 'cond' else (c.get('t') if cp[0] == '==' else c.get('e'))
+            ev_in = lambda b: SX.is_node(b) and any(y.get('k') == 'mcall' and y.get('callee') in names for y in SX.walk(b, into_lambdas=False))
+            if ev_in(branch) and not ev_in(other):
+                return SX.show(unget(fr[0].get('obj') if fr[0].get('k') == 'mcall' else fr[0].get('base')))
+        return None
+    n = 0
+    for f in [x for x in R.ev_methods() if x.body]:
+        loops = {}
+        for lp in SX.walk(f.body, into_lambdas=False):
+            if lp.get('k') == 'forrange' and SX.is_node(lp.get('var')) and lp['var'].get('id'):
+                loops[lp['var']['id']] = SX.show(unget(lp['range']))
+        g = None
+        sites = []
+        direct = [x for x in SX.walk(f.body, into_lambdas=False) if x.get('k') == 'mcall' and x.get('callee') in names]
+        closure_calls = [(x, prog.closure_target(x, f)) for x in SX.walk(f.body, into_lambdas=False) if x.get('k') == 'opcall' and x.get('op') == '()']
+        closure_calls = [(x, lam) for x, lam in closure_calls if lam is not None and lam.body]
+        if not direct and not closure_calls:
+            continue
+        g = prog.cfg(f)
+
+        def node_of(x):
+            for cn in g.nodes:
+                if cn.e is x:
+                    return cn
+            for cn in g.nodes:
+                e_ = cn.e.get('init') if cn.kind == 'decl' and SX.is_node(cn.e) else (cn.e.get('e') if cn.kind == 'return' and SX.is_node(cn.e) else cn.e)
+                if SX.is_node(e_) and any(y is x for y in SX.walk(e_, into_lambdas=False)):
+                    return cn
+            return None
+        for x in direct:
+            a = SX.real_args(x)
+            c_ = classify(a[0], loops) if a else None
+            cn = node_of(x)
+            if c_ and cn is not None:
+                sites.append((cn, c_[0], c_[1], c_[2], None))
+        for x, lam in closure_calls:
+            # a local closure that hands its own parameter to eval/exec evaluates the argument it is called with
+            for pi_, prm in enumerate(lam.params):
+                evs = [y for y in SX.walk(lam.body, into_lambdas=False) if y.get('k') == 'mcall' and y.get('callee') in names and SX.real_args(y)
+                       and (lambda a0: SX.is_node(a0) and a0.get('k') == 'ref' and a0.get('id') == prm['id'])(unget(SX.real_args(y)[0]))]
+                args = SX.real_args(x)[1:]
+                if not evs or pi_ >= len(args):
+                    continue
+                c_ = classify(args[pi_], loops)
+                cn = node_of(x)
+                if c_ and cn is not None:
+                    sites.append((cn, c_[0], c_[1], c_[2], skips_first(lam, prm, x)))
+        n += len(sites)
+        bad = []
+        for c1, k1, key1, x1, s1 in sites:
+            r = g.reachable([c1])
+            for c2, k2, key2, x2, s2 in sites:
+                if c2 is c1 or c2.id not in r or key1 != key2:
+                    continue
+                if k1 == 'child' and k2 == 'child':
+                    bad.append((c1, c2, key1))
+                elif k1 == 'elem' and k2 == 'elem' and x1 == x2:
+                    bad.append((c1, c2, '%s[%s]' % (key1, x1)))
+                elif {k1, k2} == {'elem', 'loop'}:
+                    idx, skip = (x1, s2) if k1 == 'elem' else (x2, s1)
+                    if not (idx == 0 and skip == key1):
+                        bad.append((c1, c2, '%s[%s]' % (key1, idx)))
+        seen = set()
+        for c1, c2, what in bad:
+            if what in seen:
+                continue
+            seen.add(what)
+            chk.ob('R07.12', f, c2.ln or f.ln, False, '%s is evaluated at line %s and again at line %s on the same path: its side effects (a call, a measurement, ++) happen twice'
+                   % (what, c1.ln, c2.ln), key='once:%s:%s' % (f.short, what[:30]))
+        if not bad:
+            chk.ob('R07.12', f, f.ln, True, '%s: no child link is handed to eval/exec by two calls on one path (%d evaluation sites)' % (f.short, len(sites)), key='once:' + f.short, nontrivial=False)
+    chk.count('sub-expression evaluation sites', n, 40)
+
+
+
+def _const_folder_division(prog, chk):
+    """R07.13 — a constant the analyser folds has the value the evaluator computes: the language's `/` yields a float (docs/casting.md), so
+    the constant-integer folder may return the C++ integer quotient for `/` only where the division is exact (a dominating test that the
+    remainder is zero).  Elsewhere the folded size of `int[k] a;` differs from the value `k` has when the program runs
+    (`final int k = (int)(7 / 2 * 2);` — folded 6, evaluated 7)."""
+    fs = [f for f in prog.functions if f.body and f.file.endswith('semantic_analyser.cpp') and 'optional<int>' in (f.ret or '') and f.params and 'Expression' in f.params[0]['type']
+          and any(c.get('k') == 'mcall' and c.get('callee') == f.name for c in SX.walk(f.body, into_lambdas=False))]
+    if len(fs) != 1:
+        raise AnalysisBroken('constant-integer folder of the analyser not found uniquely (%d)' % len(fs))
+    f = fs[0]
+    g = prog.cfg(f)
+    n = 0
+    for rn in g.nodes:
+        if rn.kind != 'return' or not SX.is_node(rn.e.get('e')):
+            continue
+        divs = [x for x in SX.walk(rn.e['e'], into_lambdas=False) if x.get('k') == 'bin' and x.get('op') == '/' and (x.get('t') or '') in ('int', 'long', 'long long')]
+        if not divs:
+            continue
+        if not any(pol and '"/"' in SX.show(ce) for ce, pol, _ in g.guards(rn)):
+            continue
+        n += 1
+        l_, r_ = SX.show(SX.strip(divs[0]['l'])), SX.show(SX.strip(divs[0]['r']))
+        exact = False
+        for ce, pol, _ in g.guards(rn):
+            cp = SX.cmp_parts(ce)
+            if not cp or cp[0] not in ('==', '!='):
+                continue
+            for a_, b_ in ((cp[1], cp[2]), (cp[2], cp[1])):
+                a0, b0 = SX.strip(a_), SX.strip(b_)
+                if SX.is_node(a0) and a0.get('k') == 'bin' and a0.get('op') == '%' and SX.show(SX.strip(a0['l'])) == l_ and SX.show(SX.strip(a0['r'])) == r_ \
+                        and SX.is_node(b0) and b0.get('k') == 'int' and b0.get('v') == 0 and ((cp[0] == '==') == bool(pol)):
+                    exact = True
+        chk.ob('R07.13', f, rn.ln or f.ln, exact,
+               'the constant folder returns the integer quotient %s / %s for the language\'s `/`, which the evaluator computes as a float: equal only when the division is exact '
+               '(no dominating remainder test) — `final int k = (int)(7 / 2 * 2); int[k] a;` declares 6 elements while k is 7 at run time' % (l_, r_), key='const-fold:/')
+    chk.count('integer quotients returned by the constant folder', n, 0)
+
+
+def scope_pairing(prog, chk, R, rule):
+    """block / for / call scopes are closed on every normal path (also run by C09 as R09.3: a scope left on the stack exposes the dead callee's
+    variables to its caller — the by-name walk meets them first)"""
+    chk.rule(rule, 'every scope opened while executing a statement or a call is closed on every normal path of the same function')
+    nb = 0
+    for f in [x for x in R.ev_methods() if x.body]:
+        if not any(n['k'] == 'mcall' and SX.short(n['callee']) == 'beginScope' for n in SX.walk(f.body, into_lambdas=False)):
+            continue
+        g = prog.cfg(f)
+        begins = [c for c in g.calls(lambda e: e['k'] == 'mcall' and e['callee'] == R.ev['name'] + '::beginScope')]
+        ends = [c for c in g.calls(lambda e: e['k'] == 'mcall' and e['callee'] == R.ev['name'] + '::endScope')]
+        for i, b in enumerate(begins):
+            nb += 1
+            chk.ob(rule, f, b.ln, bool(ends) and g.must_follow(b, ends), 'the scope opened in %s is closed on every normal path (including a `return` taken inside a loop body)' % f.short,
+                   key='scope:%s#%d' % (f.short, i))
+        for i, e_ in enumerate(ends):
+            chk.ob(rule, f, e_.ln, bool(begins) and g.must_precede(begins, e_), 'the scope closed in %s was opened in the same function on every path (otherwise the caller\'s scope is popped)' % f.short,
+                   key='scope-end:%s#%d' % (f.short, i), nontrivial=False)
+    for f in [x for x in R.ev_methods() if x.body]:
+        # closes without any opening in the function
+        if any(n['k'] == 'mcall' and SX.short(n['callee']) == 'endScope' for n in SX.walk(f.body, into_lambdas=False)) and \
+                not any(n['k'] == 'mcall' and SX.short(n['callee']) == 'beginScope' for n in SX.walk(f.body, into_lambdas=False)) and f.short not in ('endScope',):
+            chk.ob(rule, f, f.ln, False, '%s closes a scope it never opened' % f.short, key='scope-end-only:' + f.short)
+    chk.count('scope openings', nb, 5)
 
 
 def value_array_subscripts(prog, chk, R, rule):
